@@ -59,22 +59,30 @@ def _harness(path):
     for i, p in enumerate(probes):
         res = {"id": p["id"], "entry": p["entry"], "opts": p.get("opts", ""), "changed": {},
                "error": None, "tracked": []}
-        ns = {"np": np, "gs": gs, "A": A, "rng": np.random.RandomState(20201 + i)}
+        ns = {"np": np, "gs": gs, "A": A, "rng": np.random.RandomState(p.get("seed", 20201 + i))}
         try:
             exec(p["setup"], ns)
             tr = collect(ns)
             res["tracked"] = sorted(tr)
             before = {k: (snap(v), short(v)) for k, v in tr.items()}
+        except Exception as e:           # noqa
+            import traceback
+            res["error"] = "setup: %s: %s | %s" % (type(e).__name__, e,
+                                                   traceback.format_exc().strip().split("\n")[-3:])
+            out.append(res)
+            continue
+        try:
             exec(p["call"], ns)
-            for k, v in tr.items():
-                s = snap(v)
-                if s != before[k][0]:
-                    res["changed"][k] = {"before": before[k][1], "after": short(v),
-                                         "shape": list(v.shape), "dtype": str(v.dtype)}
         except Exception as e:           # noqa
             import traceback
             res["error"] = "%s: %s | %s" % (type(e).__name__, e,
                                             traceback.format_exc().strip().split("\n")[-3:])
+        # arrays are compared even if the call raised: a write before the exception counts
+        for k, v in tr.items():
+            s = snap(v)
+            if s != before[k][0]:
+                res["changed"][k] = {"before": before[k][1], "after": short(v),
+                                     "shape": list(v.shape), "dtype": str(v.dtype)}
         out.append(res)
     json.dump({"gstools": os.path.dirname(os.path.abspath(gs.__file__)), "results": out}, sys.stdout)
 
